@@ -198,6 +198,19 @@ func (ex *Exec) eval(env *Env, e Expr) Val {
 	case *EUnary:
 		if x.Op == "&" {
 			// address of a field: &p.f  (interior pointer)
+			if ix, isIdx := x.X.(*EIndex); isIdx {
+				// address of a slice element: &s[i]
+				b := ex.eval(env, ix.X)
+				if _, isSl := b.T.Underlying().(*types.Slice); !isSl {
+					sfail("&x[i] needs a slice")
+				}
+				el := sliceElemLoc(b, ex.specIdx(ex.eval(env, ix.I)))
+				r := Val{T: types.NewPointer(el.T), Loc: el}
+				if ex.ld.elemPtrTypes[typeKey(types.Unalias(el.T))] {
+					r.L = []*Term{ex.encodeElemPtr(env.st, el)}
+				}
+				return r
+			}
 			sel, ok := x.X.(*ESel)
 			if !ok {
 				sfail("& needs a field selector")
